@@ -159,7 +159,14 @@ async fn handle_socks5_connection(
 
     // Step 4: Send success reply
     tracing::debug!("[SOCKS5] Sending success reply to client");
-    send_connection_reply(&mut client_conn, REPLY_SUCCEEDED, dest_addr.clone()).await?;
+    if let Err(e) =
+        send_connection_reply(&mut client_conn, REPLY_SUCCEEDED, dest_addr.clone()).await
+    {
+        // The client went away: the request is over before the relay starts
+        proxy_stream.send_fin();
+        client.release_session(session).await;
+        return Err(e);
+    }
     tracing::debug!("[SOCKS5] Success reply sent");
 
     // Step 5: Bidirectional data forwarding
